@@ -17,6 +17,7 @@ import NGF.Proofs.Leader
 import NGF.Proofs.LeaderJudge
 import NGF.Generated.LeaderFacts
 import NGF.Props.C09Wiring
+import NGF.Props.C09Faults
 
 namespace NGF.Leader
 
